@@ -329,3 +329,19 @@ CHECKS["C19"] = {
     "mandatory_labels": {"all": ["sequences/call-after-account-group-deactivation", "calls/succeeded", "helpers", "decoders",
                                  "method/ContactBlock", "method/DecodeContact", "method/GroupMetadataList", "method/ServiceExportData"]},
 }
+
+CHECKS["C20"] = {
+    "level": "exploration",
+    "level_text": ("rapid-generated account histories (contacts, 0-2 multi-member groups, metadata and messages in several groups) exported through the streaming RPC, the archive checked "
+                   "against the exporting node's logs (keys, every entry byte-for-byte under its content identifier, heads), restored into a fresh in-memory node without network and "
+                   "compared (identity, entry sets, raw bytes, heads, derived state); plus generated archive mutations with a rejection / safe-disjunction oracle"),
+    "level_note": "a restore that waits for a block nobody can provide runs under a deadline and counts as a rejection; restored groups are opened without activation so that the new device writes nothing before the comparison",
+    "technique": "property-based testing (rapid): round-trip oracle over generated histories, mutation catalogue for archives",
+    "rule": ("case = one export/restore round trip or one mutated archive; non-trivial = export with >=2 groups and a log of >=3 entries / mutant that keeps the tar well-formed; "
+             "distinct = (history) / (mutant kind, history)"),
+    "assumptions": ["the exporting node's background writers have quiesced (log lengths stable) before the export is taken"],
+    "units": [
+        {"pkg": ".", "run": "^TestVerif_C20_", "shrinktime": "5s", Q: {"timeout": 1200}, T: {"timeout": 3400, "shards": 12}},
+    ],
+    "mandatory_labels": {"all": ["round-trip", "round-trip/several-groups", "mutant/rejected", "mutant/entry-byte-flip", "mutant/key-duplicated", "mutant/existing-account"]},
+}
